@@ -41,7 +41,7 @@ inspected.  Case kinds:
          Same oracle, same control document (parsed with strict=False too); keys get
          the suffix /parsed-with-strict=False    (M.ws-ns.order, M.ws-ns.find, M.match)
   long   paragraphs BUILT through the API with LONG pattern lists: FilesParagraph.create
-         (list) and `files = list` (on a free paragraph / on a paragraph already in
+         (list or tuple) and `files = list / tuple` (on a free paragraph / on a paragraph already in
          the document, after the paragraph answered for its first, short list) with
          lists whose space-joined text is 100..600 characters (many quilt-style
          hyphenated patch names 'debian/patches/fix-foo-bar-7.patch', paths with
@@ -140,7 +140,7 @@ RULE = ('Seeded pattern lists (1..3, thorough 1..4 patterns of 1..5, thorough 1.
         'by a blank / tab line and vice versa, e-w, w-e, e-w-e, w-e-w, e-e-w, e-w-e-w, ...), and ~35% of the whitespace-separated parsed '
         'starts of build histories; '
         'PARAGRAPHS BUILT THROUGH THE API WITH LONG PATTERN LISTS (1..3, thorough 1..4 such paragraphs + License paragraphs, 30% behind a '
-        'short catch-all paragraph; FilesParagraph.create(list), files = list on a free paragraph and on a paragraph already in the '
+        'short catch-all paragraph; FilesParagraph.create(list), files = list on a free paragraph (25%: a tuple instead of a list) and on a paragraph already in the '
         'document; space-joined length 100..600 - many hyphenated quilt-style patch names, paths with * ? next to hyphens, escapes, '
         'other punctuation - or ONE pattern of 100..600 characters, or exactly 72..88 characters; 60% of the later lists repeat 1..3 '
         'patterns of an earlier one; 4% carry an illegal escape; names = literal expansions of up to 4..5 patterns per list, those '
@@ -191,7 +191,7 @@ ASSUMPTIONS = ['vp.models.globmatch is a faithful model of the copyright-format 
                'not through field texts, which is C17); a dump that does not re-parse or re-parses to other Files paragraph ids is '
                'reported.  Oracle for this class: position-set matcher cross-checked on every evaluation against a '
                'single-backtrack-point matcher, and against the edit-distance DP where affordable (name length x total pattern length '
-               '<= 5000; every 16th evaluation up to 40000); every name of the class is derived from a pattern of the case, so an '
+               '<= 1200; every 24th evaluation up to 20000); every name of the class is derived from a pattern of the case, so an '
                'evaluation counts as non-trivial when the list has >= 2 patterns or a wildcard',
                'names are str; patterns containing whitespace are only reachable through globs_to_re and are observed '
                'through the real FilesParagraph.matches of a subclass overriding the `files` property',
@@ -649,6 +649,8 @@ def gen_long_case(r, wide):
                     pats.insert(r.randrange(len(pats) + 1), p)
         via = r.choice(('create', 'create', 'assign', 'assign-in-doc'))
         ent = {'F': pats, 'via': via}
+        if r.random() < 0.25:
+            ent['seq'] = 'tuple'          # handed over as a tuple (what the `files` getter itself returns), else a list
         if via != 'create':
             ent['first'] = r.choice((['placeholder'], ['*'], pats[:1], [gen_long_pattern(r, uid)]))
         paras.append(ent)
@@ -1032,7 +1034,7 @@ def oracle(ctx, gl, name):
 def oracle_long(ctx, gl, name):
     """The oracle for LONG pattern lists (hundreds of characters): the position-set matcher, cross-checked on EVERY
     evaluation against the single-backtrack-point matcher and, where it is affordable (name length x total pattern
-    length <= 5000, and every 16th evaluation up to 40000), against the edit-distance DP as well.  Answers are memoised per
+    length <= 1200, and every 24th evaluation up to 20000), against the edit-distance DP as well.  Answers are memoised per
     (list object, name): the stages of one case (built / re-assigned / re-parsed) ask the same questions again."""
     memo = gl.__dict__.setdefault('_c16_memo', {})
     if name in memo:
@@ -1042,7 +1044,7 @@ def oracle_long(ctx, gl, name):
     ok = other == want
     _LONG_SEQ[0] += 1
     cost = len(name) * gl.__dict__.setdefault('_c16_size', sum(len(t) for t in gl.toks))
-    if ok and (cost <= 5000 or (_LONG_SEQ[0] % 16 == 0 and cost <= 40000)):
+    if ok and (cost <= 1200 or (_LONG_SEQ[0] % 24 == 0 and cost <= 20000)):
         ctx.count('long:oracle-cross-checked-with-distance-dp')
         ok = (gl.distance(name) == 0) == want
     if not ok:
@@ -2014,15 +2016,16 @@ def run_long(ctx, case):
             c.add_license_paragraph(cp.LicenseParagraph.create(cp.License('L%d' % i, 'text')))
             continue
         pats, via, tag = p['F'], p.get('via', 'create'), 'c%d' % i
+        conv = tuple if p.get('seq') == 'tuple' else list
         if via == 'create':
-            para = make_para(pats, tag)
+            para = cp.FilesParagraph.create(conv(pats), tag, cp.License('L'))
             c.add_files_paragraph(para)
         else:
             para = make_para(p['first'], tag)
             if via == 'assign-in-doc':
                 c.add_files_paragraph(para)
             call_matches(para, probe)            # not judged: the paragraph has answered for its first list before
-            para.files = list(pats)
+            para.files = conv(pats)
             ctx.count('op:files-assign')
             if via != 'assign-in-doc':
                 c.add_files_paragraph(para)
@@ -2034,6 +2037,7 @@ def run_long(ctx, case):
         lists.append(gl)
         joined = len(' '.join(pats))
         ctx.count('long:paragraph-via:%s' % via)
+        ctx.count('long:handed-over-as:%s' % conv.__name__)
         ctx.count('long:joined-length:%s' % _len_class(joined))
         if joined >= 89:
             ctx.count('long:lists-beyond-one-text-line')
@@ -2133,6 +2137,7 @@ def run_long(ctx, case):
         ctx.violation('dump-of-built-document-does-not-reparse/long-pattern-list', 'dump() then Copyright(...) (source %s%s) raised '
                       '%s: %s' % (mode, '' if strict else ', strict=False', type(e).__name__, e), whole)
         return
+    ctx.count('long:dump-%s' % ('written-to-file-object' if case.get('dump') == 'file' else 'returned'))
     ctx.count('long:reparse-source:%s' % mode)
     ctx.count('long:reparse-%s' % ('strict' if strict else 'strict=False'))
     if ids2 != tags:
